@@ -1,23 +1,22 @@
 #!/bin/bash
-# Mechanical build-time rewrite (never touches the repository): in the listed files sync.Mutex becomes
-# vsync.Mutex (a durably-blocking mutex), so that a mutex held across a timed wait cannot freeze the
-# virtual clock of a synctest bubble. Output goes to <outdir>/<relpath>; mkoverlay maps it over the original.
+# Mechanical build-time rewrite (never touches the repository), see tools/instr/main.go: in the listed
+# files "sync"/"sync/atomic" are redirected to the shim packages and `go` statements become scheduler
+# threads. Without an active scheduler the shims are plain primitives whose Lock blocks durably inside a
+# synctest bubble (needed by Engine S: a sync.Mutex held across a timed wait freezes the virtual clock).
+# Output goes to <outdir>/<relpath>; mkoverlay maps it over the original.
 set -eu
 REPO=$1; OUT=$2
+V=$(cd "$(dirname "$0")/.." && pwd)
+INSTR=$V/.work/instr
+if [ ! -x "$INSTR" ] || [ "$V/tools/instr/main.go" -nt "$INSTR" ]; then
+  mkdir -p "$V/.work"
+  ( cd "$V/tools/instr" && GOFLAGS= GOTOOLCHAIN=local go1.26 build -o "$INSTR" . )
+fi
 rm -rf "$OUT"; mkdir -p "$OUT"
-for f in internal/martian/proxy.go proxyproto/net.go; do
-  [ -f "$REPO/$f" ] || continue
-  mkdir -p "$OUT/$(dirname "$f")"
-  python3 - "$REPO/$f" "$OUT/$f" <<'PY'
-import re, sys
-src = open(sys.argv[1]).read()
-out = re.sub(r'\bsync\.Mutex\b', 'vsync.Mutex', src)
-if out != src:
-    imp = '\tvsync "github.com/saucelabs/forwarder/internal/zzverif/vsync"\n'
-    out = out.replace('import (\n', 'import (\n' + imp, 1)
-    body = out.split(')', 1)[1]
-    if not re.search(r'\bsync\.', body):
-        out = re.sub(r'\n\t"sync"\n', '\n', out, 1)
-open(sys.argv[2], 'w').write(out)
-PY
-done
+"$INSTR" "$REPO" "$OUT" \
+  internal/martian/proxy.go \
+  proxyproto/net.go \
+  conntrack/conntrack.go \
+  internal/martian/h2/relay.go \
+  pac/pool.go \
+  'internal/martian/mitm/mitm.go::c\.certs\.(Get|Add)\('
